@@ -38,11 +38,15 @@ type TLSHelloConn struct {
 	br *bufio.Reader
 }
 
+// helloBufSize is the size of the peek buffer: a ClientHello may fill a whole
+// TLS plaintext record, which is a 5-byte header plus up to 2^14 bytes.
+const helloBufSize = 5 + 16384
+
 // NewTLSHelloConn wraps conn and reads the TLS ClientHello inforamtion.
 func NewTLSHelloConn(conn net.Conn) *TLSHelloConn {
 	return &TLSHelloConn{
 		Conn: conn,
-		br:   bufio.NewReader(conn),
+		br:   bufio.NewReaderSize(conn, helloBufSize),
 	}
 }
 
